@@ -33,7 +33,8 @@ Record rev := R { r_gen : N; r_parent : N; r_del : bool; r_body : N }.
 Definition rev_eqb (a b : rev) : bool :=
   (r_gen a =? r_gen b) && (r_parent a =? r_parent b) && Bool.eqb (r_del a) (r_del b) && (r_body a =? r_body b).
 
-Record syncd := mkSync { s_cas : N; s_crc : N; s_cv : N; s_hist : list rev; s_seq : N }.   (* _sync *)
+(* [s_att]: (pre-4.0) attachment metadata is still stored inside _sync and awaits migration to _globalSync *)
+Record syncd := mkSync { s_cas : N; s_crc : N; s_cv : N; s_hist : list rev; s_seq : N; s_att : bool }.   (* _sync *)
 Record vvd := mkVV { v_ver : N; v_cvcas : N }.                                             (* _vv *)
 Record moud := mkMou { m_cas : N; m_pcas : N }.                                            (* _mou *)
 
@@ -43,6 +44,7 @@ Definition absent_doc : bdoc := mkDoc Absent 0 0 None None None.
 
 Inductive op :=
 | SdkSet (b : N) | SdkDelete | SdkTouch
+| LegacyWrite (b : N)
 | GwWrite (b : N) | GwDelete | GwMetaOnly | Read | Feed (k : N)
 | Race (g : op) (n : N) (x : op).
 
@@ -139,7 +141,7 @@ Definition apply_upd (cleared : bool) (cur : bdoc) (st' : dstat) (body' : N) (u 
   let b' := match st' with Alive => body' | _ => 0 end in
   let crc' := match st' with Alive => crc body' | _ => delcrc end in
   let sy := u_sync u in
-  let sy' := if u_macro u then mkSync nc crc' (s_cv sy) (s_hist sy) (s_seq sy) else sy in
+  let sy' := if u_macro u then mkSync nc crc' (s_cv sy) (s_hist sy) (s_seq sy) (s_att sy) else sy in
   let vv0 := if cleared then None else d_vv cur in
   let mou0 := if cleared then None else d_mou cur in
   let vv' := match u_vv u with
@@ -206,6 +208,31 @@ Definition ext_touch (s : state) : state * res :=
   | _ => (s, RIgnored)
   end.
 
+(* a document as an older gateway version wrote it: a gateway write (CAS and checksum macro-expanded) whose
+   attachment metadata is still inside _sync; only on a missing document *)
+Definition legacy_write (s : state) (b : N) : state * res :=
+  match d_st (doc s) with
+  | Absent =>
+      let nc := N.succ (clk s) in
+      let seq := N.succ (nseq s) in
+      (set_wb (set_doc (set_nseq s seq)
+                 (mkDoc Alive b nc (Some (mkSync nc (crc b) nc [R 1 0 false b] seq true)) (Some (mkVV nc nc)) None))
+              (Alive, b), ROk)
+  | _ => (s, RIgnored)
+  end.
+
+(* MigrateAttachmentMetadata(docID, cas = the FEED EVENT's cas, the event's sync data): UpdateXattrs of _sync
+   (without the attachment metadata, cas / checksum macro-expanded), _globalSync and _mou, guarded by that cas:
+   a no-op when the document has moved on since the event *)
+Definition migrate (ev : bdoc) (sy : syncd) (s : state) : state :=
+  let cur := doc s in
+  if (d_cas cur =? d_cas ev) && is_alive cur then
+    let nc := N.succ (clk s) in
+    set_doc s (mkDoc Alive (d_body cur) nc
+                     (Some (mkSync nc (crc (d_body cur)) (s_cv sy) (s_hist sy) (s_seq sy) false))
+                     (d_vv cur) (Some (mkMou nc (s_cas sy))))
+  else s.
+
 (* ---------------------------------------------------------------------------------------- *)
 (* gateway procedures, parameterised by what happens when an attempt's callback completes   *)
 
@@ -258,7 +285,7 @@ Definition import_attempt (isdel : bool) (ex_raw : option N) (s : state) (d : bd
                | None => mkVV (d_cas d) (d_cas d)
                end in
     let seq := N.succ (nseq s) in
-    let sy := mkSync 0 0 (v_ver vv') (nr :: hist_of d) seq in
+    let sy := mkSync 0 0 (v_ver vv') (nr :: hist_of d) seq false in
     let ub := if doc_deleted d then Some tag else None in
     (set_nseq s seq, CbWrite (mkUpd isdel ub sy true (Some (vv', false)) (MouSet (mou_pcas d)))).
 
@@ -330,7 +357,7 @@ Definition put_cb (b : option N) (matchrev : list rev) (s : state) (p : prev) : 
           let nr := R (N.succ pg) pg deleted (match b with Some x => x | None => 0 end) in
           let seq := N.succ (nseq s1) in
           let ver := N.succ (clk s1) in
-          let sy := mkSync 0 0 ver (nr :: hist_of d) seq in
+          let sy := mkSync 0 0 ver (nr :: hist_of d) seq false in
           let mou := match d_mou d with Some _ => if is_alive d then MouDel else MouKeep | None => MouKeep end in
           (set_nseq s1 seq, CbWrite (mkUpd deleted b sy true (Some (mkVV ver 0, true)) mou), matchrev')
       end
@@ -344,7 +371,7 @@ Definition meta_cb (m : unit) (s : state) (p : prev) : state * cbres * unit :=
        | None => (s, CbErr EUpdateCancel, tt)
        | Some sy =>
            let seq := N.succ (nseq s) in
-           let sy' := mkSync (s_cas sy) (s_crc sy) (s_cv sy) (s_hist sy) seq in
+           let sy' := mkSync (s_cas sy) (s_crc sy) (s_cv sy) (s_hist sy) seq false in
            (set_nseq s seq, CbWrite (mkUpd false None sy' false None (MouSet (mou_pcas d))), tt)
        end.
 
@@ -402,7 +429,8 @@ Definition gw_feed (k : N) (s : state) : state * res :=
         | None => if isdel then (s, ROk)
                   else (fst (import_run true false ev (raw_of ev) s), ROk)
         | Some sy =>
-            if sd_is_sg_write sy (d_cas ev) (body_crc ev) (d_vv ev) then (s, ROk)
+            if sd_is_sg_write sy (d_cas ev) (body_crc ev) (d_vv ev)
+            then ((if s_att sy then migrate ev sy s else s), ROk)
             else (fst (import_run true isdel ev (raw_of ev) s), ROk)
         end
   end.
@@ -412,6 +440,7 @@ Definition simple_step (o : op) (s : state) : state * res :=
   | SdkSet b => (ext_set s b, ROk)
   | SdkDelete => ext_del s
   | SdkTouch => ext_touch s
+  | LegacyWrite b => legacy_write s b
   | GwWrite b => gw_put (Some b) s
   | GwDelete => gw_put None s
   | GwMetaOnly => gw_meta s
